@@ -302,15 +302,14 @@ func (t *tabler) scanDump(d *Dump) {
 	cdc := t.a.AppCodec()
 	for _, kv := range d.Xibc {
 		k, v := hlib.UnHex(kv[0]), hlib.UnHex(kv[1])
-		name, path, ok := host.ParseClientKey(k)
-		_ = name
+		path, ok := clientPath(k)
 		switch {
 		case ok && string(path) == host.KeyClientState:
 			if cs, err := clienttypes.UnmarshalClientState(cdc, v); err == nil {
 				t.clientState(cs)
 			}
 		case ok:
-			if _, _, isCons := host.ParseConsensusStateKey(path); isCons {
+			if isCons := bytes.HasPrefix(path, []byte(host.KeyConsensusStatePrefix+"/")) && len(path) == len(host.KeyConsensusStatePrefix)+1+16; isCons {
 				if cs, err := clienttypes.UnmarshalConsensusState(cdc, v); err == nil {
 					t.consState(cs)
 				}
@@ -331,6 +330,20 @@ func (t *tabler) scanDump(d *Dump) {
 			}
 		}
 	}
+}
+
+// "clients/<name>/<path>" -> path (the harness's own splitting: only to find the values to decode for the tables)
+func clientPath(k []byte) ([]byte, bool) {
+	pre := []byte("clients/")
+	if !bytes.HasPrefix(k, pre) {
+		return nil, false
+	}
+	rest := k[len(pre):]
+	i := bytes.IndexByte(rest, '/')
+	if i < 0 {
+		return nil, false
+	}
+	return rest[i+1:], true
 }
 
 func sortedRows(m map[string]StateRow) []StateRow {
